@@ -1,4 +1,5 @@
 """C11 quote_style, call_parentheses and space_after_function_names are honoured - static decision tables."""
+import r_layout
 import r_opt
 
 EXPLANATION = (
@@ -18,4 +19,4 @@ ASSUMPTIONS = ["README semantics of the option values as restated in r_opt.py",
 
 
 def run(ctx):
-    return [r_opt.rule_quote(ctx, "C11"), r_opt.rule_space(ctx, "C11"), r_opt.rule_call_parens(ctx, "C11"), r_opt.rule_lookahead(ctx, "C11"), r_opt.rule_measurement_only(ctx, "C11")]
+    return [r_opt.rule_quote(ctx, "C11"), r_opt.rule_space(ctx, "C11"), r_opt.rule_call_parens(ctx, "C11"), r_opt.rule_lookahead(ctx, "C11"), r_opt.rule_measurement_only(ctx, "C11"), r_layout.rule_closure_raw(ctx, "C11")]
